@@ -1108,6 +1108,28 @@ Definition wf_op_cnt (c : cell) (o : op) : Prop :=
   | _ => True
   end.
 
+(** Loader.restore_placement of one recorded instance (ORestore) *)
+Lemma restore_put_cs c sn an vb ex : csteps c (fst (restore_put c sn an vb ex)).
+Proof.
+  unfold restore_put. destruct vb; [apply srv_restore_cs|].
+  destruct (get_app an (c_apps c)) as [a|]; [|apply cs_refl]. destruct (a_once a); [apply cs_refl|].
+  destruct (srv_put c sn an) as [c'|] eqn:E; [|apply cs_refl]. cbn [fst]. eapply srv_put_cs; exact E.
+Qed.
+Lemma force_identity_se c an i : sig_eq c (force_identity c an i).
+Proof.
+  unfold force_identity. destruct i as [i|]; [|apply sig_eq_refl]. destruct (get_app an (c_apps c)) as [a|]; [|apply sig_eq_refl].
+  destruct (group_of c a) as [[g grp]|]; [|apply sig_eq_refl].
+  eapply sig_eq_trans; [|apply upd_app_se]. apply sig_eq_ext; reflexivity.
+Qed.
+Lemma Inv_restore_op c sn an vb ex ident : Inv c -> Inv (restore_op c sn an vb ex ident).
+Proof.
+  intros HI. unfold restore_op. destruct (get_app an (c_apps c)) as [a|]; [|exact HI].
+  pose proof (Inv_csteps _ _ (restore_put_cs c sn an vb ex) HI) as H1.
+  destruct (restore_put c sn an vb ex) as [c1 ok]. cbn [fst] in H1.
+  destruct ok; [eapply Inv_sig_eq; [apply force_identity_se|exact H1]|].
+  destruct (a_once a); [apply Inv_remove_app|]; exact H1.
+Qed.
+
 Theorem Inv_step c o : wf_op_cnt c o -> Inv c -> Inv (step c o).
 Proof.
   intros Hwf HI. destruct o; cbn [step].
@@ -1140,6 +1162,7 @@ Proof.
     destruct (existsb _ _); apply sig_eq_ext; reflexivity.
   - eapply Inv_sig_eq; [|exact HI]. apply sig_eq_ext; reflexivity.
   - pose proof (Inv_schedule c choices HI) as H. destruct (schedule c choices) as [[c' qs] pl]. exact H.
+  - apply Inv_restore_op; exact HI.
 Qed.
 
 Fixpoint wf_ops_cnt (c : cell) (ops : list op) : Prop :=
@@ -1468,6 +1491,29 @@ Proof.
   - exact R3.
 Qed.
 
+Lemma remove_app_shape c name : shape_eq c (remove_app c name).
+Proof.
+  unfold remove_app. destruct (get_app name (c_apps c)) as [a|]; [|apply shape_eq_refl].
+  set (c1 := match a_server a with
+             | Some sn => if is_member c sn then srv_remove c sn name else c
+             | None => c
+             end).
+  assert (H1 : shape_eq c c1).
+  { subst c1. destruct (a_server a) as [sn|]; [|apply shape_eq_refl]. destruct (is_member c sn); [apply srv_remove_shape|apply shape_eq_refl]. }
+  eapply shape_eq_trans; [exact H1|]. apply sig_eq_shape.
+  set (c2 := match a_alloc a with Some (l0, p0) => upd_alloc c1 l0 p0 (alloc_del_app name) | None => c1 end).
+  apply (sig_eq_trans c1 c2); [subst c2; destruct (a_alloc a) as [[l0 p0]|]; [apply upd_alloc_se|apply sig_eq_refl]|].
+  apply (sig_eq_trans c2 (release_identity c2 name)); [apply release_identity_se|]. apply sig_eq_ext; reflexivity.
+Qed.
+Lemma restore_op_shape c sn an vb ex ident : shape_eq c (restore_op c sn an vb ex ident).
+Proof.
+  unfold restore_op. destruct (get_app an (c_apps c)) as [a|]; [|apply shape_eq_refl].
+  pose proof (csteps_shape _ _ (restore_put_cs c sn an vb ex)) as H1.
+  destruct (restore_put c sn an vb ex) as [c1 ok]. cbn [fst] in H1.
+  destruct ok; [eapply shape_eq_trans; [exact H1|apply sig_eq_shape, force_identity_se]|].
+  destruct (a_once a); [eapply shape_eq_trans; [exact H1|apply remove_app_shape]|exact H1].
+Qed.
+
 Lemma Rooted_step r c o : wf_op_cnt c o -> TreeWf c -> RootedAt r c -> RootedAt r (step c o).
 Proof.
   intros Hwf T R. destruct o; cbn [step].
@@ -1500,17 +1546,7 @@ Proof.
       [apply adjust_up_from_se|apply adjust_down_from_se|apply adjust_down_from_se].
   - eapply RootedAt_shape; [|exact R]. split; [apply upd_srv_snp; reflexivity|reflexivity].
   - eapply RootedAt_shape; [apply sig_eq_shape, add_app_se|exact R].
-  - eapply RootedAt_shape; [|exact R]. unfold remove_app. destruct (get_app name (c_apps c)) as [a|]; [|apply shape_eq_refl].
-    set (c1 := match a_server a with
-               | Some sn => if is_member c sn then srv_remove c sn name else c
-               | None => c
-               end).
-    assert (H1 : shape_eq c c1).
-    { subst c1. destruct (a_server a) as [sn|]; [|apply shape_eq_refl]. destruct (is_member c sn); [apply srv_remove_shape|apply shape_eq_refl]. }
-    eapply shape_eq_trans; [exact H1|]. apply sig_eq_shape.
-    set (c2 := match a_alloc a with Some (l0, p0) => upd_alloc c1 l0 p0 (alloc_del_app name) | None => c1 end).
-    apply (sig_eq_trans c1 c2); [subst c2; destruct (a_alloc a) as [[l0 p0]|]; [apply upd_alloc_se|apply sig_eq_refl]|].
-    apply (sig_eq_trans c2 (release_identity c2 name)); [apply release_identity_se|]. apply sig_eq_ext; reflexivity.
+  - eapply RootedAt_shape; [apply remove_app_shape|exact R].
   - eapply RootedAt_shape; [apply sig_eq_shape, upd_app_se|exact R].
   - eapply RootedAt_shape; [apply sig_eq_shape, upd_app_se|exact R].
   - eapply RootedAt_shape; [apply sig_eq_shape, upd_app_se|exact R].
@@ -1523,6 +1559,7 @@ Proof.
   - eapply RootedAt_shape; [|exact R]. apply sig_eq_shape, sig_eq_ext; reflexivity.
   - pose proof (schedule_shape c choices) as H. destruct (schedule c choices) as [[c' qs] pl]. cbn [fst] in H.
     eapply RootedAt_shape; [exact H|exact R].
+  - eapply RootedAt_shape; [apply restore_op_shape|exact R].
 Qed.
 
 Theorem Rooted_run r ops : forall c, wf_ops_cnt c ops -> Inv c -> RootedAt r c -> Inv (run c ops) /\ RootedAt r (run c ops).
